@@ -285,4 +285,11 @@ Definition borrow_check : list diag :=
   let '(ds, fin) := borrow_check_full in
   if fin then ds else ds ++ [InternalError 1].
 
+(* borrow_check_possible_withdraw_gas (mod.rs:344-371), run by function_with_body_lowering_diagnostics
+   (db.rs:668-690) on functions that lie on a Cost cycle when withdraw_gas is added automatically:
+   the added withdraw_gas may panic at function entry, so every parameter is dropped with
+   PanicState::EndsWithPanic *)
+Definition borrow_check_possible_withdraw_gas : list diag :=
+  flat_map (fun p => drop_aux p EndsWithPanic) (l_params L).
+
 End Checker.
